@@ -3,7 +3,7 @@
     the string record [s] (bytes object, offset, size) represents the code-point array [cs]. *)
 From ChibiV Require Import C12.Model C12.Spec C12.Utf8Proofs C12.Proofs C12.Proofs2 C12.Proofs3 C12.Proofs4
   C12.PortModel C12.PortProofs C12.RangeModel C12.OutProofs C12.RangeProofs C12.CmpProofs C12.LineProofs
-  C12.PortErrProofs C12.CopyProofs C12.MapModel C12.MapProofs C12.HistModel2 C12.HistProofs2 C12.FilePortModel C12.FilePortProofs C12.CiModel C12.CiProofs C12.TruncProofs.
+  C12.PortErrProofs C12.CopyProofs C12.MapModel C12.MapProofs C12.HistModel2 C12.HistProofs2 C12.FilePortModel C12.FilePortProofs C12.CiModel C12.CiProofs C12.TruncProofs C12.TruncProofs2.
 Local Open Scope Z_scope.
 
 (* [decode_at d i rem]: sexp_string_utf8_ref at byte i with [rem] bytes left up to the end of the string *)
@@ -426,3 +426,12 @@ Proof.
   exact (set_at_truncated_lead_fresh h s a x k c T Hc).
 Qed.
 Print Assumptions string_set_at_truncated_lead_replaces_remaining_bytes.
+
+(** the remaining case: the new character is exactly as wide as the k bytes left and the string is not copy-on-write:
+    overwritten in place inside the (possibly shared) store, every other store unchanged *)
+Theorem string_set_at_truncated_lead_in_place : forall h s a x k c, Trunc h s a x k -> cp c ->
+  scow s = false -> width c = k ->
+  exists h', string_set h s (Z.of_nat (length a)) c = Ok (h', s) /\ Rep h' s (a ++ [c]) /\
+             (forall j, j <> sbytes s -> nth j h' [] = nth j h []).
+Proof. exact set_at_truncated_lead_in_place. Qed.
+Print Assumptions string_set_at_truncated_lead_in_place.
